@@ -22,3 +22,6 @@ mod c13;
 #[cfg(kani)]
 mod c19;
 
+
+#[cfg(kani)]
+mod c16;
